@@ -164,6 +164,21 @@ func init() {
 			}
 			return nil
 		}})
+	// the same functionary files a SECOND link with other products under a claimed key id (used by C10 only:
+	// C02's populations agree on their artifacts)
+	c02Kinds["dup-cert-other:leaf1"] = c02Kind{name: "dup-cert-other:leaf1",
+		file: func(b *c02Builder) hx.WMetaFile {
+			l := c02Link("dup-cert-other-leaf1")
+			l.Products = hx.ArtifactsOf(map[string]string{"out.txt": "another payload"})
+			return hx.WMetaFile{Name: hx.LinkFileName(c02Step, "deadbee2"), Wrapper: "legacy", Meta: hx.MMeta{Link: l},
+				Sigs: []hx.WSig{{Key: c02U, ClaimID: "deadbee2" + strings.Repeat("0", 56), Forge: "other-content", CertOf: "pki:leaf1"}, {Key: "pki:leaf1", WithCert: true}}}
+		},
+		truth: func(c c02Case) []string {
+			if certChainOK(c) {
+				return []string{"cert:leaf1"}
+			}
+			return nil
+		}}
 	// the honest link of A2 copied under the upper-cased short id, key id upper-cased in the entry
 	// (a signature does not cover its own key id field): still only functionary A2
 	c02Register(c02Kind{name: "dup-upper:" + c02A2,
